@@ -12,6 +12,7 @@ run(ctx): PRNG geometry pairs x data layouts x masks -> driver impl/c05.py once 
       the numpy pipeline, and the dimension bookkeeping.
 """
 import math
+import re
 import struct
 import sys
 import time
@@ -492,12 +493,17 @@ def enc(dt, v):
 
 
 # ------------------------------------------------------------------------------------------ Coq text
+def mark(t):
+    """long list literals are shared between the cases of one file through a Definition (see CoqCases.evaluate)"""
+    return "\u00ab" + t + "\u00bb" if len(t) > 60 else t
+
+
 def zl(l):
-    return "[" + ";".join("%d" % x for x in l) + "]"
+    return mark("[" + ";".join("%d" % x for x in l) + "]")
 
 
 def bl(l):
-    return "[" + ";".join("true" if x else "false" for x in l) + "]"
+    return mark("[" + ";".join("true" if x else "false" for x in l) + "]")
 
 
 HDR = ("From Coq Require Import ZArith List Bool.\nFrom PR Require Import Base.ListX Model.Blockwise Model.C05_run.\n"
@@ -512,7 +518,7 @@ def run(ctx):
                 "coordinates, data, mask and target, each run under PYTROLL_CHUNK_SIZE in {1,2,3,7,4096} (cost-capped for small chunk "
                 "sizes); non-trivial = at least one target pixel receives a source value AND more than one block is assembled or "
                 "a mask / extra dim / invalid pixel is present; distinct = distinct (case, chunk size, resampler, chunking)")
-    ncase = ctx.n(40, 400)
+    ncase = ctx.n(32, 400)
     sizes = [(30, 24), (60, 40), (120, 80), (400, 300)]
     cases, metas = [], {}
     for cid in range(ncase):
@@ -525,7 +531,7 @@ def run(ctx):
             c, m = gen_case(r, cid, size)
         cases.append(c)
         metas[cid] = m
-    budget = ctx.n(1800, 6000)
+    budget = ctx.n(1200, 6000)
     per_cs = {}
     for cs in CHUNK_SIZES:
         sel = []
@@ -544,7 +550,8 @@ def run(ctx):
     def call(cs):
         t0 = time.time()
         o = ctx.impl("c05", {"cases": per_cs[cs]}, timeout=ctx.n(900, 3000), extra_env={"PYTROLL_CHUNK_SIZE": str(cs)})
-        timing[cs] = (len(per_cs[cs]), round(time.time() - t0, 1))
+        ws = sorted((c.get("wall", 0), c["id"]) for c in o["cases"])
+        timing[cs] = (len(per_cs[cs]), round(time.time() - t0, 1), "sum %.1f" % sum(w for w, _ in ws), "slowest %s" % (ws[-2:],))
         return o
 
     with ThreadPoolExecutor(max_workers=len(CHUNK_SIZES)) as ex:
@@ -761,8 +768,8 @@ class CoqCases:
         fill = enc(dt, cast(dt, expected_fill(case)))
         rows = []
         for s in range(S):
-            rows.append(zl([enc(dt, cast(dt, d["values"][(l * S + s) * Tr + c])) for l in range(L) for c in range(Tr)]))
-        self.npy.append(("(%d, %d, %s, %s, %s, %d, [%s], %s)" % (th * tw, K, bl(ref["vii"]), bl(ref["voi"]), zl(ref["ia"]), fill, ";".join(rows),
+            rows.append("[" + ";".join("%d" % enc(dt, cast(dt, d["values"][(l * S + s) * Tr + c])) for l in range(L) for c in range(Tr)) + "]")
+        self.npy.append(("(%d, %d, %s, %s, %s, %d, %s, %s)" % (th * tw, K, bl(ref["vii"]), bl(ref["voi"]), zl(ref["ia"]), fill, mark("[" + ";".join(rows) + "]"),
                                                                  zl([enc(dt, v) for v in ref["values"]])), "case %d numpy" % case["id"]))
 
     def evaluate(self, ctx):
@@ -775,7 +782,16 @@ class CoqCases:
             for k in range(0, len(items), per):
                 part = items[k:k + per]
                 name = "c05_%s_%03d" % (short, k // per)
-                texts.append((name, HDR + "Definition cases := [\n%s].\nEval vm_compute in (bad %s cases).\n" % (";\n".join(x for x, _ in part), chk), part, what))
+                names, defs = {}, []
+
+                def intern(m):
+                    t = m.group(1)
+                    if t not in names:
+                        names[t] = "l%d" % len(names)
+                        defs.append("Definition %s := %s." % (names[t], t))
+                    return names[t]
+                body = ";\n".join(re.sub("\u00ab([^\u00bb]*)\u00bb", intern, x) for x, _ in part)
+                texts.append((name, HDR + "\n".join(defs) + "\nDefinition cases := [\n%s].\nEval vm_compute in (bad %s cases).\n" % (body, chk), part, what))
         res = ctx.coq_eval_many([(n, t) for n, t, _, _ in texts])
         for name, _, part, what in texts:
             out, ok = res[name]
